@@ -339,6 +339,21 @@ def derivatives(m, x, t, theta, order=None):
                 mag0=mag0, mag1=mag1, mag2=mag2, fM=fV, JM=JM, GM=GM, HxxM=HxxM, HpxM=HpxM)
 
 
+def term_scale(m, x, t, theta):
+    """Size of the terms the DEFINITION adds up into the right-hand side: |rate| x |magnitude| for both ends of every
+    transition, plus the explicit ODE terms.  The float reference (and the model's own float evaluation) carries rounding noise
+    of a few eps times this, also where the net contribution cancels (magnitudes p+1 and p of opposite sign, say)."""
+    fo = FloatOps()
+    env = make_env(m, x, t, theta, fo, None)
+    total = 0.0
+    for ev in m.get("events", []):
+        r = abs(float(evaluate(ev["rate"], env, fo)))
+        total += 2 * r * sum(abs(float(evaluate(mag_expr(tr["mag"]), env, fo))) for tr in ev["trans"])
+    for o in m.get("odes", []):
+        total += abs(float(evaluate(o["expr"], env, fo)))
+    return total
+
+
 def rhs_callable(m, theta, order=None):
     """Reference RHS f(t, x) for scipy.integrate.solve_ivp (plain floats)."""
     def f(t, x):
